@@ -180,13 +180,13 @@ fn build_head(status: u16, resp_v11: bool, cl_idx: usize, te_idx: usize) -> Resp
     RespHead { v11: resp_v11, status, reason: Some(b"R".to_vec()), fields }
 }
 
-const BASES: [u64; 5] = [9, 900, 2, 12, 11];
+const BASES: [u64; 5] = [9, 900, 2, 17, 11];
 
 fn exec_table(t: &mut Tape, st: &mut Stats) -> Result<(), String> {
     let m = t.below(9);
     let status = 100 + t.below(900) as u16;
     let resp_v11 = t.below(2) == 1;
-    let cl_idx = t.below(12);
+    let cl_idx = t.below(17);
     let te_idx = t.below(11);
     st.describe(|| json!({"method": METHODS[m].as_str(), "status": status, "resp_v11": resp_v11, "content_length": if cl_idx == 0 { None } else { Some(CL_VALUES[cl_idx].0) }, "transfer_encoding": if te_idx == 0 { None } else { Some(TE_VALUES[te_idx].0) }}));
     let cell = Cell { method: METHODS[m].clone(), status, resp_v11, cl_idx, te_idx, head: build_head(status, resp_v11, cl_idx, te_idx) };
@@ -202,7 +202,7 @@ fn exec_decorated(t: &mut Tape, st: &mut Stats) -> Result<(), String> {
         _ => t.range(101, 999) as u16,
     };
     let resp_v11 = !t.chance(30);
-    let cl_idx = if t.chance(60) { t.range(1, 11) } else { 0 };
+    let cl_idx = if t.chance(60) { t.range(1, 16) } else { 0 };
     let te_idx = if t.chance(60) { t.range(1, 10) } else { 0 };
     let nplain = t.range(0, 6);
     let mut fields = gen_plain_fields(t, nplain, false);
@@ -242,17 +242,127 @@ fn exec_decorated(t: &mut Tape, st: &mut Stats) -> Result<(), String> {
     check_cell(&cell, st)
 }
 
+/// Stage 'paths': the table must hold however the flow reached the response: request version 1.0 / 1.1, after an Expect
+/// handshake (100 seen, refused by this very response, 100 arriving late), with a body sent despite the method.
+fn exec_paths(t: &mut Tape, st: &mut Stats) -> Result<(), String> {
+    use crate::drive::exchange::{check_against_truth, run_exchange, AwaitMode, ExchangeSpec, Outcome, ReqConn, ReqFraming, RespSpec, Sched, ServerPre};
+    let req_v10 = t.chance(35);
+    let method = if req_v10 { [Method::GET, Method::HEAD, Method::POST][t.below(3)].clone() } else { METHODS[t.below(9)].clone() };
+    let status = match t.weighted(&[3, 2, 2]) {
+        0 => *t.pick(&[200u16, 201, 204, 205, 206, 304, 301, 302, 307, 404, 101, 199, 299, 300, 399, 500, 999]),
+        1 => t.range(300, 399) as u16,
+        _ => t.range(101, 999) as u16,
+    };
+    let resp_v11 = !t.chance(35);
+    // numeric / absent Content-Length, any Transfer-Encoding value of the table
+    let cl: Option<u64> = match t.weighted(&[3, 2, 3]) {
+        0 => None,
+        1 => Some(0),
+        _ => Some(t.range(1, 40) as u64),
+    };
+    let te_idx = if t.chance(50) { t.range(1, 10) } else { 0 };
+    let (_, te_chunked) = TE_VALUES[te_idx];
+    let route = t.below(5); // 0 plain, 1 Expect + 100 seen, 2 Expect refused by this response, 3 late 100, 4 body despite the method
+    let takes_body = crate::drive::recv::needs_body(&method);
+    let despite = route == 4 || (route != 0 && !takes_body);
+    let expect = (1..=3).contains(&route);
+    let clc = match cl {
+        None => ClClass::Absent,
+        Some(n) => ClClass::Num(n),
+    };
+    let framing = match framing_table(&method, status, resp_v11, clc, te_idx != 0, te_chunked) {
+        Expect::Is(f) => f,
+        _ => {
+            st.class("paths_skipped_dont_care");
+            return Ok(());
+        }
+    };
+    let mut fields = vec![Field::new("X-Pad", "1")];
+    if let Some(n) = cl {
+        fields.push(Field::new("Content-Length", &n.to_string()));
+    }
+    if te_idx != 0 {
+        fields.push(Field::new("Transfer-Encoding", TE_VALUES[te_idx].0));
+    }
+    if (300..400).contains(&status) && t.bool() {
+        fields.push(Field::new("Location", "/l"));
+    }
+    if t.chance(40) {
+        let i = t.below(fields.len() + 1);
+        let f = fields.remove(i.min(fields.len() - 1));
+        fields.push(f);
+    }
+    let (payload, body_wire, close_delimited): (Vec<u8>, Vec<u8>, bool) = match framing {
+        Framing::None | Framing::Length(0) => (vec![], vec![], false),
+        Framing::Length(n) => {
+            let p: Vec<u8> = (0..n as usize).map(|i| b'a' + (i % 26) as u8).collect();
+            (p.clone(), p, false)
+        }
+        Framing::Chunked => (b"chunked payload".to_vec(), b"7\r\nchunked\r\n8;e\r\n payload\r\n0\r\n\r\n".to_vec(), false),
+        Framing::Close => (b"until close".to_vec(), b"until close".to_vec(), true),
+    };
+    let spec = ExchangeSpec {
+        method: method.clone(),
+        req_v10,
+        uri: "http://h.test/p".into(),
+        req_conn: ReqConn::Absent,
+        expect,
+        despite,
+        req_framing: *t.pick(&[ReqFraming::Auto, ReqFraming::Cl]),
+        extra_headers: vec![],
+        body: b"req-body".to_vec(),
+        await_mode: if route == 3 { AwaitMode::NeverLook } else { AwaitMode::Look },
+        server_pre: match route {
+            1 | 3 => ServerPre::Continue(b"HTTP/1.1 100 Continue\r\n\r\n".to_vec()),
+            2 => ServerPre::Refuse,
+            _ => ServerPre::Silent,
+        },
+        resp: RespSpec { head: RespHead { v11: resp_v11, status, reason: Some(b"R".to_vec()), fields }, body_wire, payload, close_delimited },
+    };
+    st.case_digest = t.digest();
+    st.describe(|| crate::drive::exgen::spec_json(&spec));
+    st.evals(1);
+    let stream = spec.stream();
+    let what = format!("{} (request 1.{}) route {} -> {} HTTP/1.{} CL={:?} TE={:?}", method, if req_v10 { 0 } else { 1 }, ["plain", "expect+100", "expect-refused", "late-100", "despite-method"][route], status, resp_v11 as u8, cl, if te_idx != 0 { Some(TE_VALUES[te_idx].0) } else { None });
+    let obs = match run_exchange(&spec, None, &stream, &mut Sched::canonical()).map_err(|e| format!("{}: {}", what, e))? {
+        Outcome::Done(o, _) => o,
+        Outcome::Premature(_) => return Err("harness: premature".into()),
+    };
+    check_against_truth(&spec, &obs, true, stream.len()).map_err(|e| format!("{}: expected framing {:?}: {}", what, framing, e))?;
+    if let (Some(m), true) = (&obs.body_mode, obs.body_state_entered) {
+        let want = match framing {
+            Framing::Chunked => "Chunked".to_string(),
+            Framing::Close => "CloseDelimited".to_string(),
+            Framing::Length(n) => format!("LengthDelimited({})", n),
+            Framing::None => "NoBody".to_string(),
+        };
+        if *m != want {
+            return Err(format!("{}: body_mode() = {}, expected {}", what, m, want));
+        }
+    }
+    st.class(["path_plain", "path_expect_100", "path_expect_refused", "path_late_100", "path_despite"][route]);
+    if req_v10 != !resp_v11 {
+        st.class("request_and_response_versions_differ");
+    }
+    if route != 0 || req_v10 {
+        st.nontrivial(st.case_digest);
+    }
+    Ok(())
+}
+
 pub static DEF: PropDef = PropDef {
     id: "C06",
     rule: "enumeration 'table': 9 methods x every status 100..999 x response version {1.0, 1.1} x Content-Length in {absent, 0, 7, 007, \
-u64::MAX, u64::MAX+1, abc, -1, 1.5, empty, '7 7', 0x10} x Transfer-Encoding in {absent, chunked, Chunked, CHUNKED, 'gzip, chunked', \
-'gzip,chunked', gzip, identity, chunkedx, xchunked, 'deflate, gzip'} = 2138400 cells, each through Flow (try_response, proceed, \
+u64::MAX, u64::MAX+1, abc, -1, 1.5, empty, '7 7', 0x10, '7, 7', '7, abc', 'abc, 7', '7,', '7, 8'} x Transfer-Encoding in {absent, chunked, Chunked, CHUNKED, 'gzip, chunked', \
+'gzip,chunked', gzip, identity, chunkedx, xchunked, 'deflate, gzip'} = 3029400 cells, each through Flow (try_response, proceed, \
 successor variant, body_mode) and Call (try_response, into_body, mode identified by a probe read). random 'decorated': the same \
-cells with field order, name case, OWS, reason phrases and surrounding fields varied. Oracle: the RFC 9112 6.3 table as worded in \
+cells with field order, name case, OWS, reason phrases and surrounding fields varied. random 'paths': decided cells reached \
+through the exchange driver with request version 1.0 / 1.1 and five routes {plain, Expect + 100 seen, Expect refused by this very \
+response, 100 arriving late, body sent despite the method}, body bytes delivered and compared. Oracle: the RFC 9112 6.3 table as worded in \
 the property; Err for non-numeric Content-Length; successor = body state iff a non-empty body is expected, else Redirect iff 3xx != \
 304, else Cleanup. Don't-care (counted): status 100, Content-Length above u64::MAX, 3xx without Content-Length but with a \
 non-framing Transfer-Encoding (none or close). non-trivial = cell with two framing signals, or a framing signal under a no-body \
-clause; distinct by enumeration index.",
+clause (distinct by enumeration index); 'paths' cases on a non-plain route or with an HTTP/1.0 request (distinct by digest).",
     assumptions: &[
         "Transfer-Encoding lists with chunked not in last position are not generated (the statement says 'lists ending in chunked')",
         "'+n' and obs-text framing values are not generated (unasserted leniencies, DESIGN 5.3)",
@@ -265,11 +375,19 @@ clause; distinct by enumeration index.",
         exhaustive: true,
         exec: None,
     }],
-    randoms: &[RandomDef {
-        name: "decorated",
-        cases: |t: Tier| t.pick(400_000, 6_000_000),
-        tape_len: 200,
-        exec: Some(exec_decorated),
-    }],
+    randoms: &[
+        RandomDef {
+            name: "decorated",
+            cases: |t: Tier| t.pick(400_000, 6_000_000),
+            tape_len: 200,
+            exec: Some(exec_decorated),
+        },
+        RandomDef {
+            name: "paths",
+            cases: |t: Tier| t.pick(300_000, 4_000_000),
+            tape_len: 40,
+            exec: Some(exec_paths),
+        },
+    ],
     extra: None,
 };
